@@ -66,6 +66,10 @@ func main() {
 		replayMain(*replay, *build, *overlay, *repo, *cffBin)
 		return
 	}
+	if *prop == "C16" {
+		c16Main(*tier, *build, *repo, *cffBin)
+		return
+	}
 	if isStatic(*prop) {
 		staticMain(*prop, *tier, *build, *overlay, *repo, *cffBin)
 		return
